@@ -110,7 +110,7 @@ fn dump(origin: &Name, map: &BTreeMap<RrKey, RecordSet>) -> (String, Vec<String>
 // which texts have a model side
 
 const UNMODELLED_TYPES: &[&str] = &[
-    "cert", "csync", "https", "naptr", "openpgpkey", "svcb",
+    "csync", "https", "naptr", "svcb",
 ];
 
 fn has_backslash_digit(t: &str) -> bool {
@@ -212,70 +212,6 @@ fn label_loadable(l: &[u8]) -> bool {
     l.first() != Some(&b'-') && l.iter().all(|c| c.is_ascii_alphanumeric() || matches!(c, b'-' | b'.'))
 }
 
-/// an entry states a CERT record whose base64 data is written in more than one piece (RFC 4398 2.2
-/// allows that; hickory decodes the first piece only): the word CERT followed, in the same entry, by
-/// more than four further items
-fn cert_data_split(text: &str) -> bool {
-    let (mut paren, mut comment, mut quote) = (false, false, false);
-    let mut words: Vec<String> = vec![];
-    let mut cur = String::new();
-    let check = |w: &Vec<String>| {
-        w.iter().position(|x| x.eq_ignore_ascii_case("CERT")).map(|k| w.len() - k - 1 > 4).unwrap_or(false)
-    };
-    let mut skip = false;
-    for c in text.chars().chain(std::iter::once('\n')) {
-        if skip {
-            // the character after a backslash
-            skip = false;
-            cur.push(c);
-            continue;
-        }
-        if c == '\\' && !comment {
-            skip = true;
-            cur.push(c);
-            continue;
-        }
-        if comment {
-            if c != '\n' {
-                continue;
-            }
-            comment = false;
-        }
-        if quote {
-            if c == '"' {
-                quote = false;
-            }
-            cur.push(c);
-            continue;
-        }
-        match c {
-            '"' => {
-                quote = true;
-                cur.push(c)
-            }
-            ';' | '(' | ')' | ' ' | '\t' | '\r' | '\n' => {
-                if !cur.is_empty() {
-                    words.push(std::mem::take(&mut cur));
-                }
-                match c {
-                    ';' => comment = true,
-                    '(' => paren = true,
-                    ')' => paren = false,
-                    '\n' if !paren => {
-                        if check(&words) {
-                            return true;
-                        }
-                        words.clear();
-                    }
-                    _ => {}
-                }
-            }
-            _ => cur.push(c),
-        }
-    }
-    check(&words)
-}
-
 fn expected_labels(expected: &str) -> Vec<Vec<u8>> {
     // every name token in an expected record is `F:<hex>.<hex>…`
     expected
@@ -295,8 +231,6 @@ fn classify(text: &str, expected: &str) -> &'static str {
         "escaped-semicolon-in-item"
     } else if labels.iter().any(|l| !label_loadable(l)) {
         "name-label-not-ldh"
-    } else if cert_data_split(text) {
-        "cert-base64-split"
     } else if scan(text.as_bytes()).decimal_escape {
         "decimal-escape-arithmetic"
     } else {
@@ -705,7 +639,7 @@ fn gen_records(r: &mut Rng, origin: &GName, wild: bool, clean: bool) -> Vec<GRec
         owners.push(owner.clone());
         let ttl = gen_ttl(r);
         let tname = |r: &mut Rng| if r.chance(3, 4) { gen_name_under(r, origin, wild) } else { gen_abs_name(r, wild) };
-        let kind = if r.chance(1, 40) { 15 } else { r.below(15) };
+        let kind = r.below(16);
         let n = if matches!(kind, 2 | 4) { 1 } else { r.range(1, 3) };
         for _ in 0..n {
             let (rtype, code, data): (&'static str, u16, GData) = match kind {
@@ -1030,10 +964,9 @@ impl<'a> Printer<'a> {
                 };
                 // "whitespace is allowed within the hexadecimal text" (RFC 4034 5.3, RFC 6698 2.2), "may be
                 // divided into any number of white-space-separated substrings" (RFC 4398 2.2): hickory
-                // joins the pieces for TLSA / SMIMEA / DS; it takes only the first piece of a CERT (known
-                // finding, not in clean files) and refuses more than one for SSHFP / OPENPGPKEY (no RFC
-                // text allows splitting those: written in one piece)
-                let splittable = matches!(*kind, "TLSA" | "SMIMEA" | "DS") || (*kind == "CERT" && !self.clean);
+                // joins the pieces for TLSA / SMIMEA / DS and (since fix 1479f5a) CERT; it refuses more than
+                // one piece for SSHFP / OPENPGPKEY (no RFC text allows splitting those: written in one piece)
+                let splittable = matches!(*kind, "TLSA" | "SMIMEA" | "DS" | "CERT");
                 let mut cuts: Vec<usize> = vec![];
                 if splittable && text.len() > 1 && self.r.chance(3, 4) {
                     let k = self.r.range(1, 5.min(text.len() as u64 - 1)) as usize;
@@ -1045,6 +978,13 @@ impl<'a> Printer<'a> {
                         // force a break inside a byte / a base64 quantum
                         let q = self.r.below((text.len() / unit) as u64) as usize;
                         cuts.push(q * unit + 1 + self.r.below(unit as u64 - 1) as usize);
+                    }
+                    if self.r.chance(1, 8) {
+                        // "down to single base-64 digits": cut a stretch into single characters
+                        let from = self.r.below(text.len() as u64) as usize;
+                        let to = (from + self.r.range(2, 6) as usize).min(text.len());
+                        cuts.extend(from.max(1)..to);
+                        self.tag("data.split-single-digits");
                     }
                     cuts.sort();
                     cuts.dedup();
@@ -1523,7 +1463,7 @@ fn split_data_case(r: &mut Rng) -> (String, Vec<&'static str>) {
     let mut recs: Vec<GRec> = vec![];
     let ttl = r.range(1, 99999) as u32;
     for _ in 0..r.range(1, 3) {
-        let kind = *r.pick(&["TLSA", "TLSA", "SMIMEA", "DS", "DS", "SSHFP", "CERT", "OPENPGPKEY"]);
+        let kind = *r.pick(&["TLSA", "TLSA", "SMIMEA", "DS", "DS", "SSHFP", "CERT", "CERT", "CERT", "OPENPGPKEY"]);
         let (rtype, code, data) = gen_blob(r, kind);
         let owner = {
             let mut ls = vec![gen_alnum_label(r, 3)];
